@@ -1,11 +1,10 @@
 #!/bin/bash
 # seedrun.sh <patch.diff> <CHECK_ID> [tier]: apply a seeded change to /repo, run one check, undo.
-P=$1; ID=$2; TIER=${3:-quick}
+P=$(readlink -f "$1"); ID=$2; TIER=${3:-quick}
 cd /repo || exit 3
 if [ -n "$(git status --porcelain)" ]; then echo "/repo not clean"; exit 3; fi
-git apply --3way "$P" 2>/tmp/seedrun.err || git apply "$P" || { echo "patch does not apply"; cat /tmp/seedrun.err; git checkout -q -- .; exit 3; }
-git reset -q
+git apply "$P" || { echo "patch does not apply"; git reset -q --hard HEAD; exit 3; }
 ( cd /verif && timeout 3600 ./check "$ID" "$TIER" ) ; rc=$?
-git -C /repo checkout -q -- . ; git -C /repo clean -fdq
+git -C /repo reset -q --hard HEAD; git -C /repo clean -fdq
 echo "check exit=$rc"
 exit $rc
